@@ -44,6 +44,41 @@ PROPS = {
         "rule": ARITH_RULE + "the full class product {-Inf,-fin,-0,+0,+fin,+Inf}^k x 6 modes for Add Sub Mul Quo FMA is enumerated every run; non-trivial = at least one operand is a zero or an infinity",
         "level": "proof",
     },
+    "C06": {
+        "gens": [{"name": "muldiv", "harness": "kernharness", "quick": 2500, "thorough": 9000},
+                 {"name": "dec", "harness": "kernharness", "quick": 1500, "thorough": 6000},
+                 {"name": "C01", "quick": 1200, "thorough": 6000}],
+        "needs": ["apiharness", "kernharness"],
+        "nontrivial": {"karatsuba", "karatsubaSqr", "basicSqr", "long", "recursive", "inexact"},
+        "rule": ("dec.mul/sqr/div/divW/shl/shr/add/sub called through the verif hooks with the three thresholds set to random values "
+                 "(2..40, 1..60, 1..60) per case, receivers nil/stale/aliased, adversarial words (0, 1, B/2, B-1, 10^k±1), constructed "
+                 "q̂ over-estimates and exact multiples; results compared with natOf arithmetic and with the L0 Lean model run under the same "
+                 "thresholds; plus Mul/Quo through the public API. distinct = hash of the case line; non-trivial = an operand at or above "
+                 "the active threshold, a multi-word divisor, or (API) an inexact result"),
+        "lean_targets": ["Proofs.GenWordOps", "Proofs.GenTables"],
+    },
+    "C07": {
+        "gens": [{"name": "ww", "harness": "kernharness", "quick": 3000, "thorough": 20000},
+                 {"name": "vec", "harness": "kernharness", "quick": 4000, "thorough": 30000}],
+        "needs": ["kernharness"],
+        "nontrivial": {"unrolled", "shape=inplace", "shape=up", "shape=down", "ww", "len%4=1", "len%4=2", "len%4=3"},
+        "rule": ("each of the 12 decimal kernels: assembly vs portable Go vs L0 Lean model (built on the REGENERATED word functions) vs the "
+                 "mathematical definition; lengths 0..70 (quick) / 0..400 (thorough), all shift counts 0..18, edge words, separate / in-place / "
+                 "shifted-overlap destinations as dec.shl, dec.shr and dnorm use them. distinct = hash of the case line; non-trivial = word kernel, "
+                 "length not a multiple of 4, length >= 4 (unrolled loop), or overlapping destination"),
+        "lean_targets": ["Proofs.GenWordOps", "Proofs.GenTables"],
+        "build_configs": True,
+    },
+    "C18": {
+        "gens": [{"name": "shared", "harness": "kernharness", "quick": 40, "thorough": 300},
+                 {"name": "decpoison", "harness": "kernharness", "quick": 1500, "thorough": 6000},
+                 {"name": "C09", "quick": 150, "thorough": 1000}],
+        "needs": ["apiharness", "kernharness"],
+        "nontrivial": {"shared", "karatsuba", "karatsubaSqr", "long", "alias", "inexact"},
+        "rule": ("premises P1-P4 of the interleaving theorem tied deterministically: operand snapshots incl. backing arrays (API programs), pool "
+                 "poisoning on get and put with an outstanding-set (dec operations above the thresholds), and k in {2,4,8,16} goroutines running "
+                 "Mul Quo Add Sqrt FMA Cmp Text GobEncode Int on shared operands compared with the sequential result (support, not proof)"),
+    },
     "C08": {
         "gens": [{"name": "C08", "quick": 250, "thorough": 1500}],
         "nontrivial": {"inexact", "range", "alias", "special"},
@@ -57,9 +92,12 @@ PROPS = {
         "level": "proof",
     },
     "C10": {
-        "gens": [{"name": "C10", "quick": 250, "thorough": 1500}],
-        "nontrivial": {"alias"},
-        "rule": ARITH_RULE + "non-trivial = two argument positions are the same variable",
+        "gens": [{"name": "C10", "quick": 250, "thorough": 1500}, {"name": "decpoison", "harness": "kernharness", "quick": 1200, "thorough": 5000},
+                 {"name": "C03", "quick": 600, "thorough": 3000}],
+        "needs": ["apiharness", "kernharness"],
+        "known_ok": ["fma-product-exponent-out-of-range"],
+        "nontrivial": {"alias", "karatsuba", "karatsubaSqr", "long"},
+        "rule": ARITH_RULE + "every aliasing shape and stale receivers; dec operations with receivers nil/stale/aliasing an operand and poisoned pool buffers; non-trivial = two argument positions are the same variable, or a dec operation above a threshold",
         "level": "proof",
     },
     "C05": {
